@@ -155,6 +155,25 @@ theorem C17_unlock_held_ok (s : Mx) (v : V) (s' : Mx) (v' : V) :
     simp [mxStepG, hp, hw, this] at hm
     split at hm <;> simp at hm <;> obtain ⟨rfl, rfl⟩ := hm <;> simp
 
+/-- **The monitor implements a reader/writer lock**: the only effects a step of any goroutine has on the
+lock state (`writer`, `readers`) are the four transitions of the abstract lock used for the entities of
+the DAGMutex model — grant of the write lock when nobody holds it, grant of a read lock when no writer
+holds it, and the two releases (from a state in which the lock is held that way). -/
+theorem C17_monitor_refines_rwlock (s : Mx) (v : V) (s' : Mx) (v' : V) (h : (s', v') ∈ mxStep s v) :
+    (s'.writer = s.writer ∧ s'.readers = s.readers) ∨
+    (v.pc = .lkC ∧ s.writer = false ∧ s.readers = 0 ∧ s'.writer = true ∧ s'.readers = 0) ∨
+    (v.pc = .rlC ∧ s.writer = false ∧ s'.writer = false ∧ s'.readers = s.readers + 1) ∨
+    (v.pc = .ulC ∧ s.writer = true ∧ s.readers = 0 ∧ s'.writer = false ∧ s'.readers = 0) ∨
+    (v.pc = .ruC ∧ s.writer = false ∧ 0 < s.readers ∧ s'.writer = false ∧ s'.readers = s.readers - 1) := by
+  obtain ⟨pc, rd, wr⟩ := v
+  obtain ⟨m, readers, writer, pending, waitR, wakeR, waitW, wakeW⟩ := s
+  cases pc <;> cases m <;> cases writer <;>
+    simp [mxStepG, ulCStep, signalW, broadcastR] at h <;>
+    (repeat' split at h) <;>
+    (try simp at h) <;>
+    (try (first | (obtain ⟨rfl, rfl⟩ := h) | (obtain ⟨hg, rfl, rfl⟩ := h)
+          simp_all <;> omega))
+
 /-- The code before the repair: `Unlock` on a fresh mutex ran through (and broadcast) instead of
 panicking.  Replayed on the implementation by the `seq` requests of the harness. -/
 theorem C17_unlock_unheld_old_witness :
